@@ -542,6 +542,68 @@ func (env *Env) execBlock(list []ast.Stmt) ([]*Val, bool) {
 				}
 				env.fail(x, "assignment target")
 			}
+		case *ast.SwitchStmt:
+			if x.Init != nil {
+				if _, d := env.execBlock([]ast.Stmt{x.Init}); d {
+					env.fail(x, "return in switch-init")
+				}
+			}
+			var tag *Val
+			if x.Tag != nil {
+				tag = env.eval(x.Tag)
+				if tag == nil || tag.C == nil {
+					env.fail(x, "switch on a value that is not a constant")
+				}
+			}
+			start, def := -1, -1
+			for i, cl := range x.Body.List {
+				cc, ok := cl.(*ast.CaseClause)
+				if !ok {
+					continue
+				}
+				if cc.List == nil {
+					def = i
+					continue
+				}
+				for _, ce := range cc.List {
+					v := env.eval(ce)
+					if v == nil || v.C == nil {
+						env.fail(ce, "case expression that is not a constant")
+					}
+					if (tag == nil && v.C.Kind() == constant.Bool && constant.BoolVal(v.C)) || (tag != nil && constant.Compare(v.C, token.EQL, tag.C)) {
+						start = i
+						break
+					}
+				}
+				if start >= 0 {
+					break
+				}
+			}
+			if start < 0 {
+				start = def
+			}
+			for i := start; i >= 0 && i < len(x.Body.List); i++ {
+				cc := x.Body.List[i].(*ast.CaseClause)
+				body := cc.Body
+				through := false
+				for j, st := range body {
+					if br, ok := st.(*ast.BranchStmt); ok {
+						if br.Tok == token.FALLTHROUGH {
+							through = true
+						}
+						if br.Tok == token.FALLTHROUGH || (br.Tok == token.BREAK && br.Label == nil) {
+							body = body[:j]
+							break
+						}
+					}
+				}
+				if r, d := env.execBlock(body); d {
+					return r, true
+				}
+				if !through {
+					break
+				}
+			}
 		case *ast.BlockStmt:
 			if r, d := env.execBlock(x.List); d {
 				return r, true
